@@ -124,4 +124,16 @@ theorem C14_switch_reports_are_truthful (P : Program) (val : Node → Option Val
   have hall := (safe_exec_sw hsw hsol h).2
   exact ⟨fun n hm => hall _ hm, fun n e hm => hall _ hm, fun v hm => outcome_value_sw hsw (hall _ hm), fun e hm => hall _ hm⟩
 
+/-- **C14 (switch / one-of pipelines)**: success is reported only for a node that has a value; a reported node error is
+an exception the body raised on the declared arguments, a collaborator's, or the stored failure of a dependency of a node
+that therefore has no value -/
+theorem C14_oneof_reports_are_truthful (P : Program) (val : Node → Option Val) (hone : OneP P)
+    (hsol : SolutionOne P val) (s : St) (log : List Obs) (h : Exec P s log) :
+    (∀ n, Obs.ncomplete n none ∈ log → (val n).isSome = true) ∧
+    (∀ n e, Obs.ncomplete n (some e) ∈ log → (∃ k, P.body n (kwFrom P val n) 0 k = .raise e) ∨ CollabFails P e ∨
+      (ErrCause P val e ∧ val n = none)) ∧
+    (∀ e, Obs.pcomplete (.error e) ∈ log → ErrCause P val e) := by
+  have hall := (safe_exec hone hsol h).2
+  exact ⟨fun n hm => hall _ hm, fun n e hm => hall _ hm, fun e hm => hall _ hm⟩
+
 end MLPE.Eng
